@@ -17,7 +17,7 @@ ENTRIES = [
     (1, 7, 'a'),
     (2, 7, 'bb'),                       # duplicate pid with a different name
     (1, 9, ''),                         # duplicate of tid 1, empty name
-    (U64, 2 ** 32 - 1, 'n' * 19),       # extreme values, longest name that fits with its NUL
+    (U64, 2 ** 32 - 1, 'n' * 20),       # extreme values, a name that fills the 20-byte field (no NUL)
     (3, 0, 'hé€llo'),         # multi-byte UTF-8
     (4, 8, b'ab\0junk'),                # junk after the NUL
     (5, 7, ''),                         # same pid as entries 0/1 with an EMPTY name (a later entry wins even when empty)
